@@ -291,12 +291,19 @@ class PrimaiteGame:
                 new_node.config.start_up_duration = defaults_config["node_start_up_duration"]
             if "node_shut_down_duration" in defaults_config:
                 new_node.config.shut_down_duration = defaults_config["node_shut_down_duration"]
-            if "node_scan_duration" in defaults_config:
+            # (a default applies where the item does not state the option itself)
+            if "node_scan_duration" in defaults_config and "node_scan_duration" not in node_cfg:
                 new_node.config.node_scan_duration = defaults_config["node_scan_duration"]
             if "folder_scan_duration" in defaults_config:
                 new_node.file_system._default_folder_scan_duration = defaults_config["folder_scan_duration"]
             if "folder_restore_duration" in defaults_config:
                 new_node.file_system._default_folder_restore_duration = defaults_config["folder_restore_duration"]
+            # ... also for the folders the node was built with (root, the folders declared for the node)
+            for folder in new_node.file_system.folders.values():
+                if "folder_scan_duration" in defaults_config:
+                    folder.scan_duration = defaults_config["folder_scan_duration"]
+                if "folder_restore_duration" in defaults_config:
+                    folder.restore_duration = defaults_config["folder_restore_duration"]
 
             if "users" in node_cfg and new_node.software_manager.software.get("user-manager"):
                 user_manager: UserManager = new_node.software_manager.software["user-manager"]  # noqa
@@ -347,7 +354,7 @@ class PrimaiteGame:
                         raise ValueError(msg)
 
                     # TODO: handle simulation defaults more cleanly
-                    if "service_fix_duration" in defaults_config:
+                    if "service_fix_duration" in defaults_config and "fixing_duration" not in service_cfg.get("options", {}):
                         new_service.config.fixing_duration = defaults_config["service_fix_duration"]
                     if "service_restart_duration" in defaults_config:
                         new_service.restart_duration = defaults_config["service_restart_duration"]
